@@ -3,7 +3,7 @@
     Models: Model/Agg.v, Model/Bucket.v; proofs: Proofs/AggProofs.v, Proofs/BucketProofs.v. *)
 From Coq Require Import ZArith NArith List Permutation.
 From Snel Require Import Base.Bytes Base.Civil Model.Order Model.Bucket Model.Agg
-     Proofs.AggProofs Proofs.BucketProofs.
+     Proofs.AggProofs Proofs.AggPipelineProofs Proofs.BucketProofs.
 Import ListNotations.
 Open Scope Z_scope.
 
@@ -62,6 +62,17 @@ Theorem C09_each_event_one_group : forall p rs,
   /\ (forall r, In r rs -> In (row_key p r) (map fst (sink_rows p rs))).
 Proof. exact each_event_one_group. Qed.
 Print Assumptions C09_each_event_one_group.
+
+(** The whole pipeline — a sink per flow, snapshots, partial rows, coordinator merge — over any
+    split of the rows into flows: a group is reported iff some row has its key, and then every
+    metric is the final value of the fold over exactly the rows with that key (outside the known
+    MIN class). *)
+Theorem C09_pipeline_equals_fold : forall p parts k,
+  Forall rows_ok parts ->
+  ~ MinEmptyContribution p parts k ->
+  option_map (map finalize) (lookup k (pipeline p parts)) = spec_group p k (concat parts).
+Proof. exact pipeline_equals_fold. Qed.
+Print Assumptions C09_pipeline_equals_fold.
 
 (** LIMIT / OFFSET select whole groups (metrics untouched) out of a permutation of all groups. *)
 Theorem C09_limit_caps_groups : forall (V : Type) p limit offset (groups : list (gkey * V)),
